@@ -20,6 +20,10 @@ let smap (ws : (point * BinNums.coq_Z) list) : string =
   Stdlib.String.concat "," (Stdlib.List.map (fun ((y, x), c) -> Printf.sprintf "%d:%d:%d" x y c) l)
 
 let init () =
+  register "rr_k06" (fun a ->
+    match C05_rrect.rr_in a with
+    | (r, [fill; stroke; width; align]) -> b_out (coq_K06_rrect_fill_outside_stroke r (style_in fill stroke width align))
+    | _ -> "BAD-ARGS");
   register "rr_styled" (fun a ->
     match C05_rrect.rr_in a with
     | (r, [fill; stroke; width; align; bx; by; bw; bh]) ->
